@@ -26,6 +26,8 @@ SITE   (tools/sitegen/validators.py, output coq/Gen/S_validators.v, header also 
                               unparsed text is `text`:  def f(params): return <elt>
     ("assign_value", name)    the right-hand side of the (unique) assignment `name = <expr>` in the function:
                                   def f(params): return <expr>
+    ("if_or_first", gen)      X of the `if X or not all(<gen>): raise` guard whose generator unparses to `gen`:
+                                  def f(params): return X
     ("while_test", k)         the test of the k-th `while` among the function's top-level statements:
                                   def f(params): return <test>
     ("stmt_present", text) / ("if_test_present", text)
@@ -57,8 +59,8 @@ SITE = [
     dict(name="sv_check_compressed_axes", file=UT, func="check_compressed_axes", locator=("func",),
          params=["ndim", "compressed_axes"],
          extern={
-             # list(set(t)) == t : see Lib/PyValid.v (exact for repeat-free tuples of ints in [0, 8))
-             "np.array_equal(list(set(compressed_axes)), compressed_axes)": "ext_set_order_equal compressed_axes",
+             # sorted(set(t)) == t  <=>  t strictly increasing (the Integral check precedes it since 35dbcbd)
+             "np.array_equal(sorted(set(compressed_axes)), compressed_axes)": "ext_sorted_set_equal compressed_axes",
              "all((isinstance(a, Integral) for a in compressed_axes))": "ext_all_integral compressed_axes",
              "min(compressed_axes)": "ext_min compressed_axes",
              "max(compressed_axes)": "ext_max compressed_axes",
@@ -76,6 +78,11 @@ SITE = [
          locator=("gen_elt", "(l1 == l2 or l1 == 1 or (l2 == 1 and (not is_result)) for l1, l2 in "
                              "zip(shape1[::-1], shape2[::-1], strict=False))"),
          params=["l1", "l2", "is_result"]),
+    # the guard added by 7dd4784: broadcast_to (is_result) rejects an operand with more axes than the target
+    dict(name="sv_bcast_more_dims", file=UM, func="_get_broadcast_shape",
+         locator=("if_or_first", "(l1 == l2 or l1 == 1 or (l2 == 1 and (not is_result)) for l1, l2 in "
+                                 "zip(shape1[::-1], shape2[::-1], strict=False))"),
+         params=["is_result", "shape1", "shape2"]),
     dict(name="sv_bcast_dim", file=UM, func="_get_broadcast_shape",
          locator=("gen_elt", "(l1 if l1 != 1 else l2 for l1, l2 in zip_longest(shape1[::-1], shape2[::-1], fillvalue=1))"),
          params=["l1", "l2"]),
@@ -113,8 +120,8 @@ VALIDATOR_CALLS = {"normalize_axis", "normalize_index", "check_index", "check_co
                    "check_consistent_fill_value", "check_fill_value", "_get_broadcast_shape", "_get_nary_broadcast_shape"}
 KERNEL_CALLS = {"COO", "GCXS", "DOK", "cls", "_dot", "as_coo", "_from_coo", "linear_loc", "todense", "tocoo", "reshape",
                 "transpose", "_get_expanded_coords_data", "_sort_indices", "_sum_duplicates", "_prune",
-                "change_compressed_axes", "_mask", "stack", "tensordot", "sum"}
-NEUTRAL_CALLS = {"len", "list", "tuple", "range", "reversed", "unique", "append", "any", "all", "isinstance", "enumerate", "max",
+                "change_compressed_axes", "_mask", "stack", "tensordot", "sum", "asformat"}
+NEUTRAL_CALLS = {"count", "len", "list", "tuple", "range", "reversed", "unique", "append", "any", "all", "isinstance", "enumerate", "max",
                  "min_scalar_type", "can_store", "reduce", "empty", "zip", "zip_longest", "_get_broadcast_parameters", "chain", "int",
                  "iter", "result_type", "_is_scipy_sparse_obj", "hasattr", "type", "_zero_of_dtype", "equivalent", "extend",
                  "slice", "zeros", "asarray", "super", "__init__", "warn", "format", "broadcast_to",
